@@ -1,9 +1,15 @@
 //! Verification shim: sequential, heap-free executable specification of the subset of
 //! crossbeam_skiplist::SkipMap used by open-coroutine-core. Slots are stable (entries never move),
 //! iteration is in ascending key order, as for the real skip list.
+//!
+//! Layout note: every slot is a separate object reached through its own pointer (not an array element, and not
+//! stored inside the map value). The crate keeps its maps inside a heap-allocated VecDeque; data stored by value
+//! there is an untyped byte array for the verifier, and every access through a reference into it became a
+//! byte-level operation on the whole allocation (14 M variables for a single steal, measured). A harness hands
+//! the map three typed objects of its own (`from_slots`); `new()` allocates them.
 use std::cell::UnsafeCell;
 pub const MAXKEYS: usize = 3;
-pub struct SkipMap<K, V> { pub slots: UnsafeCell<[Option<(K, V)>; MAXKEYS]> }
+pub struct SkipMap<K, V> { pub s0: *mut Option<(K, V)>, pub s1: *mut Option<(K, V)>, pub s2: *mut Option<(K, V)>, _own: UnsafeCell<()> }
 unsafe impl<K: Send, V: Send> Sync for SkipMap<K, V> {}
 unsafe impl<K: Send, V: Send> Send for SkipMap<K, V> {}
 pub mod map {
@@ -13,59 +19,72 @@ pub mod map {
         pub fn value(&self) -> &'a V { self.v }
     }
     /// `lo`/`hi` are exclusive key bounds already yielded from the front/back.
-    pub struct Iter<'a, K, V> { pub(crate) m: &'a super::SkipMap<K, V>, pub(crate) lo: Option<&'a K>, pub(crate) hi: Option<&'a K> }
+    /// `left`: a map holds at most MAXKEYS entries, so an iterator yields at most MAXKEYS times (a concrete counter, so
+    /// that a `for` over the map has a structural bound for the verifier; it never cuts a real iteration short)
+    pub struct Iter<'a, K, V> { pub(crate) m: &'a super::SkipMap<K, V>, pub(crate) lo: Option<&'a K>, pub(crate) hi: Option<&'a K>, pub(crate) left: usize }
 }
 use map::{Entry, Iter};
 impl<K: Ord, V> SkipMap<K, V> {
-    pub fn new() -> Self { SkipMap { slots: UnsafeCell::new([None, None, None]) } }
+    pub fn new() -> Self {
+        SkipMap { s0: Box::into_raw(Box::new(None)), s1: Box::into_raw(Box::new(None)), s2: Box::into_raw(Box::new(None)), _own: UnsafeCell::new(()) }
+    }
+    /// a map over three slot objects owned by the caller (which must outlive the map)
+    /// # Safety
+    /// the three pointers are valid, distinct and not used elsewhere while the map lives
+    pub unsafe fn from_slots(a: *mut Option<(K, V)>, b: *mut Option<(K, V)>, c: *mut Option<(K, V)>) -> Self {
+        SkipMap { s0: a, s1: b, s2: c, _own: UnsafeCell::new(()) }
+    }
+    /// slot `i` (a concrete index at every call site)
     #[allow(clippy::mut_from_ref)]
-    pub fn raw(&self) -> &mut [Option<(K, V)>; MAXKEYS] { unsafe { &mut *self.slots.get() } }
+    pub fn slot(&self, i: usize) -> &mut Option<(K, V)> {
+        unsafe { match i { 0 => &mut *self.s0, 1 => &mut *self.s1, _ => &mut *self.s2 } }
+    }
     pub fn get_or_insert_with<F: FnOnce() -> V>(&self, key: K, f: F) -> Entry<'_, K, V> {
-        let s = self.raw();
         let mut free = MAXKEYS;
         let mut i = 0;
         while i < MAXKEYS {
-            match &s[i] { Some((k, _)) => { if *k == key { let e = s[i].as_ref().unwrap(); return Entry { k: &e.0, v: &e.1 }; } } None => { if free == MAXKEYS { free = i; } } }
+            match self.slot(i) { Some((k, _)) => { if *k == key { let e = self.slot(i).as_ref().unwrap(); return Entry { k: &e.0, v: &e.1 }; } } None => { if free == MAXKEYS { free = i; } } }
             i += 1;
         }
         assert!(free < MAXKEYS, "shim bound: at most MAXKEYS distinct priorities");
-        s[free] = Some((key, f()));
-        let e = s[free].as_ref().unwrap();
-        Entry { k: &e.0, v: &e.1 }
+        // three explicit cases: the written slot is a distinct object in each
+        if free == 0 { *self.slot(0) = Some((key, f())); let e = self.slot(0).as_ref().unwrap(); Entry { k: &e.0, v: &e.1 } }
+        else if free == 1 { *self.slot(1) = Some((key, f())); let e = self.slot(1).as_ref().unwrap(); Entry { k: &e.0, v: &e.1 } }
+        else { *self.slot(2) = Some((key, f())); let e = self.slot(2).as_ref().unwrap(); Entry { k: &e.0, v: &e.1 } }
     }
-    pub fn iter(&self) -> Iter<'_, K, V> { Iter { m: self, lo: None, hi: None } }
+    pub fn iter(&self) -> Iter<'_, K, V> { Iter { m: self, lo: None, hi: None, left: MAXKEYS } }
+}
+impl<'a, K: Ord, V> Iter<'a, K, V> {
+    fn pick(&self, smallest: bool) -> Option<&'a (K, V)> {
+        let mut best: Option<&'a (K, V)> = None;
+        let mut i = 0;
+        while i < MAXKEYS {
+            let s: &'a Option<(K, V)> = unsafe { match i { 0 => &*self.m.s0, 1 => &*self.m.s1, _ => &*self.m.s2 } };
+            if let Some(e) = s {
+                let ok_lo = match self.lo { Some(l) => e.0 > *l, None => true };
+                let ok_hi = match self.hi { Some(h) => e.0 < *h, None => true };
+                if ok_lo && ok_hi {
+                    match best { Some(b) => { if (smallest && e.0 < b.0) || (!smallest && e.0 > b.0) { best = Some(e); } } None => best = Some(e) }
+                }
+            }
+            i += 1;
+        }
+        best
+    }
 }
 impl<'a, K: Ord, V> Iterator for Iter<'a, K, V> {
     type Item = Entry<'a, K, V>;
     fn next(&mut self) -> Option<Self::Item> {
-        let s = unsafe { &*self.m.slots.get() };
-        let mut best: Option<&'a (K, V)> = None;
-        let mut i = 0;
-        while i < MAXKEYS {
-            if let Some(e) = &s[i] {
-                let ok_lo = match self.lo { Some(l) => e.0 > *l, None => true };
-                let ok_hi = match self.hi { Some(h) => e.0 < *h, None => true };
-                if ok_lo && ok_hi { match best { Some(b) => { if e.0 < b.0 { best = Some(e); } } None => best = Some(e) } }
-            }
-            i += 1;
-        }
-        best.map(|e| { self.lo = Some(&e.0); Entry { k: &e.0, v: &e.1 } })
+        if self.left == 0 { return None; }
+        self.left -= 1;
+        self.pick(true).map(|e| { self.lo = Some(&e.0); Entry { k: &e.0, v: &e.1 } })
     }
 }
 impl<'a, K: Ord, V> DoubleEndedIterator for Iter<'a, K, V> {
     fn next_back(&mut self) -> Option<Self::Item> {
-        let s = unsafe { &*self.m.slots.get() };
-        let mut best: Option<&'a (K, V)> = None;
-        let mut i = 0;
-        while i < MAXKEYS {
-            if let Some(e) = &s[i] {
-                let ok_lo = match self.lo { Some(l) => e.0 > *l, None => true };
-                let ok_hi = match self.hi { Some(h) => e.0 < *h, None => true };
-                if ok_lo && ok_hi { match best { Some(b) => { if e.0 > b.0 { best = Some(e); } } None => best = Some(e) } }
-            }
-            i += 1;
-        }
-        best.map(|e| { self.hi = Some(&e.0); Entry { k: &e.0, v: &e.1 } })
+        if self.left == 0 { return None; }
+        self.left -= 1;
+        self.pick(false).map(|e| { self.hi = Some(&e.0); Entry { k: &e.0, v: &e.1 } })
     }
 }
 impl<'a, K: Ord, V> IntoIterator for &'a SkipMap<K, V> {
